@@ -142,3 +142,12 @@ claim('C07', 'other',
       'right length tests. Completeness of the search (no mapping lost) is NOT decided.',
       'trusts: variable naming of the matcher (guard classification is by operand names); the .pyx analysed as text',
       'DESIGN.md 4/C07')
+claim('C15', 'other',
+      'syntactic role-order / sort-before-index rules over the reaction writer and reader, value-provenance check of '
+      'MoleculeContainer.compose (self -> reactant slot, other -> product slot), literal signature tables (completeness, injectivity)',
+      'decides: writer and reader use the same role order; molecules of a role are sorted by their strings before CX indices are '
+      'computed; the condensed graph takes reactant values from the left operand and product values from the right one; dynamic '
+      'flags are exactly the reactant/product attribute differences; the dynamic bond/charge/radical token tables are complete and '
+      'injective; role slices use non-negative offsets. Renumbering independence of the CGR string is NOT decided.',
+      'trusts: variable naming in compose (self/other); undecided parts of C01',
+      'DESIGN.md 4/C15')
